@@ -456,6 +456,9 @@ let dispatch (req : string list) (impl : string list) : string * string =
           | Some v2, Some v1 ->
             if not (str_eqb (pep_print v2) pr) then "BAD:normal-form-not-idempotent"
             else if pep_cmp v1 v2 <> Eq then "BAD:normal-form-not-equal-to-original"
+            (* hypothesis of the round-trip theorem (C07), and the round trip itself, on the parsed value *)
+            else if not (pep_nf_b v1) then "BAD:parsed-value-not-in-normal-form"
+            else if (match pep_of_zerv (zerv_of_pep v1) with Some v3 -> pep_cmp v3 v1 <> Eq || not (str_eqb (pep_print v3) (pep_print v1)) | None -> true) then "BAD:zerv-round-trip-changes-value"
             else "OK"
           | None, _ -> "BAD:printed-form-not-accepted"
           | _, None -> "NA"
